@@ -77,9 +77,13 @@ def full_modes(n1d):
 
 
 def below(x2, v):
-    """is edge^2 < v on this path?  Forks when the path has not decided it."""
+    """is edge^2 < v on this path?  Forks when the path has not decided it (memoised per path)."""
     if isinstance(x2, Sym):
-        return bool(x2 < v)
+        memo = ctx().extra.setdefault('below', {})
+        key = (x2.e.get_id(), str(v))
+        if key not in memo:
+            memo[key] = (x2, bool(x2 < v))
+        return memo[key][1]
     return x2 < v
 
 
@@ -265,7 +269,8 @@ def items(tier, seed):
             kmu.append((n, F, 1, 1, False, ()))
             kppi.append((n, F, 1, 1, 1))
         kmu.append((n, True, 1, 1, False, (0, 2, 4)))
-        kmu.append((n, True, 1, 1, True, (0, 2)))
+        if n < 4 or tier == 'thorough':
+            kmu.append((n, True, 1, 1, True, (0, 2)))
         kppi.append((n, True, 1, 1, 2))
     for n in (2, 3):
         kmu.append((n, True, 2, 1, False, (0, 2)))
